@@ -70,17 +70,35 @@ def main():
     ap = argparse.ArgumentParser()
     ap.add_argument("--only"); ap.add_argument("--tier", default="quick")
     ap.add_argument("--confirm", action="store_true"); ap.add_argument("-j", type=int, default=3)
+    ap.add_argument("--table", action="store_true", help="write seeded/RESULTS.md")
     a = ap.parse_args()
     ids = sorted(os.listdir(os.path.join(HERE, "seeded")))
     ids = [i for i in ids if os.path.exists(os.path.join(HERE, "seeded", i, "meta.json"))]
     if a.only:
         ids = [i for i in ids if i in a.only.split(",")]
     missed = 0
+    rows = []
     with cf.ThreadPoolExecutor(a.j) as ex:
         for o in ex.map(lambda i: one(i, a.tier, a.confirm), ids):
             own = o.get("checks", {}).get(o["property"], o.get("error", "?"))
             missed += not str(own).startswith("caught")
-            print(json.dumps(o))
+            print(json.dumps(o), flush=True)
+            rows.append(o)
+    if a.table:
+        # generated overview (seeded/RESULTS.md): one row per change with what the checks reported
+        with open(os.path.join(HERE, "seeded", "RESULTS.md"), "w") as f:
+            f.write("# Seeded changes: result of `tools/seeded.py%s --tier %s --table`\n\n"
+                    "Generated; the patches are applied to scratch copies of /repo HEAD, never to /repo.\n\n"
+                    "| id | round | change | needs | %sowning check and others (violation keys) |\n|---|---|---|---|%s---|\n"
+                    % (" --confirm" if a.confirm else "", a.tier,
+                       "suite / demo without / demo with | " if a.confirm else "", "---|" if a.confirm else ""))
+            for o in rows:
+                meta = json.load(open(os.path.join(HERE, "seeded", o["id"], "meta.json")))
+                conf = ("%s / %s / %s | " % (o.get("tests", "?"), o.get("demo_without"), o.get("demo_with"))) if a.confirm else ""
+                res = "; ".join("%s %s" % (k, v.replace("caught:", "`").replace(",", "`, `") + ("`" if v.startswith("caught:") else ""))
+                                for k, v in o.get("checks", {}).items()) or o.get("error", "?")
+                f.write("| %s | %s | %s | %s | %s%s |\n" % (o["id"], meta.get("round", 1),
+                        meta.get("what", "").replace("|", "/"), meta.get("needs_to_manifest", "").replace("|", "/"), conf, res))
     print("%d seeded changes, %d not caught by the owning check" % (len(ids), missed))
     return 0
 if __name__ == "__main__":
